@@ -85,4 +85,32 @@ CLAIMED = {
          "(_partial: the bridge from the list kernels to matrices is listed as missing). Every run replays recorded cp_als traces (dense, sparse, Tucker, sum data; all mode orders and optdims subsets for N<=3; "
          "given / random / nvecs starts) through the Lean step and recomputes the reported quantities independently",
          _NOTE + "; np.linalg.solve enters as a service whose contract is checked on every recorded call; Float steps are compared at 1e-9 relative; reported residuals are compared on the scale of the cancelled terms", "DESIGN.md 7 (C09)"),
+ "C03": ("Lean 4 cell-wise refinement theorems for models of every sparse element-wise operation (XRat = Q with nan/+-inf for division) + enumeration of all pairs of sparsity patterns against NumPy on the expanded arrays",
+         "for + - * / (scalar, sparse, dense, Kruskal for *), logical and/or/xor/not, == != and the four orderings, elemfun, ones, mask, extract and the constructor the models follow sptensor.py branch by branch and are proved, "
+         "for all shapes, values and stored orders, to give at every cell the dense operation applied to the two denotations, with well-formed results; the facts the code hard-wires at zero (0+x, x*0, 0/0 = nan, x/0 = +-inf, "
+         "order facts about 0) are explicit hypotheses discharged for the concrete scalar types. The thorough tier enumerates every pair of sparsity patterns for every shape <= 4 cells x 13 ops x {sparse, dense} "
+         "plus all stored orders on small shapes (~330k evaluations); quick samples",
+         _NOTE + "; '/' by a Kruskal tensor (epsilon floor) is not modelled", "DESIGN.md 7 (C03)"),
+ "C06": ("Lean 4 invariant (WF preserved) and permutation-invariance theorems over the sparse operation models + all-stored-orders sweep of every public sparse operation",
+         "permuting the stored entries is proved not to change the denotation or well-formedness; every modelled sparse operation is proved to return a well-formed object from well-formed inputs and the same "
+         "denotation for permuted operands (corollaries of the C03 / C07 / C01 refinements); the aggregating constructor is proved well-formed with zero sums dropped, the plain constructor to store what it is given "
+         "(and reject what the repaired code rejects). The sweep runs every public sptensor / sptenmat operation found by introspection under all n! stored orders (n <= 4; 24 random beyond), inspecting WF and comparing results across orders",
+         _NOTE + "; operations without a Lean model (collapse, contract, scale, squash, ttv, ttm, indexing, generators) are checked on the implementation only and tagged unmodelled in the evidence", "DESIGN.md 7 (C06)"),
+ "C10": ("translator for the scalar formulas of hosvd.py / tucker_als.py (regenerated every run) + Lean models with eigh / nvecs as services + theorems over the reals; Float replay of recorded runs with prescribed spectra",
+         "proved for all inputs given the service contracts: HOSVD factors are orthonormal, the core is the data times the transposed factors for both strategies and any mode order, automatic ranks are the least "
+         "with discarded tail <= tol^2||X||^2/d, given ranks are kept exactly, and the relative error is <= tol (full proof, sequential and non-sequential); Tucker-ALS: orthonormal factors, core relation, "
+         "||X-T||^2 = ||X||^2 - ||G||^2 hence reported fit = recomputed fit, iteration limit. Fit monotonicity of Tucker-ALS is _partial: conditional on Ky Fan's maximum principle as an explicit hypothesis",
+         _NOTE + "; eigh / nvecs contracts (orthonormal eigenpairs / leading vectors) are checked on every recorded call; whole runs are replayed at Float with recorded service outputs at 1e-9", "DESIGN.md 7 (C10)"),
+ "C11": ("translator for the anchored formulas of cp_apr.py (regenerated every run) + Lean state-machine models of MU / PDNR / PQNR with the search direction as a service + invariants over any ordered field; Float replay and one-step validation",
+         "proved for all inputs and ANY search direction: every reachable state of all three variants has non-negative weights and factor entries; shape and rank; KKT violations non-negative with one entry per "
+         "outer iteration; iteration limit; the reported objective equals the Poisson log-likelihood of the returned model (dense and sparse, via the sum-of-factor-0 lemma); final normalisations preserve the tensor; "
+         "invalid / negative inputs rejected. 'At least as likely as the start' is _partial (one multiplicative step / one line search is not worse; the chain across modes and iterations is checked on the implementation). "
+         "Three narrow known findings: a residual L-BFGS assertion for degenerate guesses, 1-way dense data, sparse data without stored entry",
+         _NOTE + "; log is a parameter with two inequalities assumed; 'inputs not modified' is checked bitwise on the implementation", "DESIGN.md 7 (C11)"),
+ "C20": ("Lean 4 theorems by structural induction and finite sums over models of the generators with the random draws as explicit inputs + exact correspondence with recorded draws",
+         "tenones / tenzeros / tenrand / from_function (layout), tendiag (shape rule, elements longer or shorter), sptendiag, teneye (closed form, symmetry under every mode permutation, and the identity "
+         "ttsv(E, x) = (x'x)^(m/2-1) x for ALL even orders and sizes over any field of characteristic 0), from_aggregator (any reducer: well-formed, value = reducer of the values stored under the subscript, zero results dropped, "
+         "rejections), sptenrand / sptensor.from_function (well-formed, requested count reached whenever one draw or the ten pooled draws contain enough distinct subscripts, result a function of the first ten draws) "
+         "and ktensor.from_function are proved for all inputs; the harness replays recorded np.random draws through the model",
+         _NOTE + "; the value function is assumed to return non-zero values (np.zeros would store explicit zeros); floor(u*extent) is exact in the model, double precision in the code", "DESIGN.md 7 (C20)"),
 }
